@@ -19,8 +19,9 @@ configuration, into map[string]any / []any / any / typed maps, slices, structs, 
 a post-processor of the driver plays "component that changes what it was given": it visits every field as soon as its
 component is initialised, takes the observation and THEN scribbles over the bound map / slice in place.  Every observation
 is therefore made after all earlier holders of the same configured value changed their copies, and Configure.Get is read
-again afterwards on the same App (Check_C17.cget2 / config_kept).  By default the driver changes what is reachable
-through declared container types; VERIF_C17_DEEP=1 also goes into the maps / lists held in interface-typed positions."""
+again afterwards on the same App (Check_C17.cget2 / config_kept).  The driver also goes into the maps / lists held in
+interface-typed positions ("deep"; since the repair D-C17j of /repo — VERIF_C17_DEEP=0 restricts it to what is reachable
+through declared container types, which is all the unrepaired tree withstood)."""
 import copy
 import glob
 import json
@@ -629,7 +630,7 @@ def coq_opt_bytes(x):
 
 KIND_NO = {"key": 0, "lit": 1, "tpl": 2}
 # sharing groups: also change the maps / lists held in interface-typed positions of a bound value
-DEEP = os.environ.get("VERIF_C17_DEEP", "") not in ("", "0")
+DEEP = os.environ.get("VERIF_C17_DEEP", "1") not in ("", "0")
 
 
 def coq_case(c, o, fix):
@@ -1603,8 +1604,8 @@ def run(ctx):
     sgroups = [g for g in groups if g.get("mutate")]
     sh = {"sharing groups (each in a process of its own; every holder changes its bound maps / slices in place right after "
           "it was observed)": len(sgroups),
-          "mode": "deep (also inside interface-typed positions; VERIF_C17_DEEP=1)" if DEEP else
-                  "declared container types only (maps / lists held in interface-typed positions are left alone)",
+          "mode": "deep (also inside interface-typed positions)" if DEEP else
+                  "declared container types only (VERIF_C17_DEEP=0: maps / lists held in interface-typed positions are left alone)",
           "bindings (three routes each)": sum(len(group_cases(g)) for g in sgroups),
           "bindings per key and start": hist(n for g in sgroups for st in g["starts"] for n in
                                              __import__("collections").Counter(c["key"] for comp in st["comps"] for c in comp).values()),
@@ -1670,8 +1671,8 @@ def run(ctx):
                                     "literals are generated inside the tag grammar: no top-level comma (C19), no ${ / #{ (C16/C18)",
                                     "sharing groups change bound values through reflection in a driver post-processor "
                                     "(PostProcessAfterInitialization), standing in for components that modify what they were given in "
-                                    "Init; by default only what is reachable through declared map / slice / pointer / struct types is "
-                                    "changed, VERIF_C17_DEEP=1 also changes maps / lists held in interface-typed positions",
+                                    "Init; maps / lists held in interface-typed positions are changed too (VERIF_C17_DEEP=0: only what is "
+                                    "reachable through declared map / slice / pointer / struct types)",
                                     "bindings of a group are well-typed (every route succeeds), so that one binding cannot fail the "
                                     "start for the others; conversions and failures are exercised one binding per start",
                                     "a failing oracle counts as a known finding only if the case lies in a class KF-C17a..i AND "
